@@ -237,8 +237,17 @@ def type_case(ctx, L, cli, case):
         code = L.commands[cc_name]["code"]
         if O.run_decode("Response", content, command_code=code, strict=True).outcome["kind"] == "ok":
             expected.append(f"Response (TPM_CC.{cc_name})")
-    args = ["type", cli.file(content), "--in", "binary"]
-    payload = {"args": ["type", "<file>", "--in", "binary"], "file": content}
+    # the same bytes as binary or as hex text (the listing must not depend on the container)
+    import hashlib
+
+    as_hex = hashlib.sha256(content).digest()[0] % 3 == 0
+    verb = "ty" if hashlib.sha256(content).digest()[1] % 4 == 0 else "type"
+    if as_hex:
+        text = " ".join(f"{b:02x}" for b in content).encode() + b"\n"
+        args = [verb, cli.file(text), "--in", "hex"]
+    else:
+        args = [verb, cli.file(content), "--in", "binary"]
+    payload = {"args": [verb, "<file>", "--in", "hex" if as_hex else "binary"], "file": content}
     ctx.case(("type", content), True, sample={"args": payload["args"], "file_hex": content.hex()[:80], "decodes_as": expected[:6]})
     ctx.count("type-runs")
     code, out, err = cli.run(args)
@@ -351,7 +360,7 @@ def replay(ctx, payload):
             if args[1] in L.commands or args[1] in O._REGISTRY:
                 example_case(ctx, L, cli, args[1])
             return
-        if args[0] == "type":
+        if args[0] in ("type", "ty"):
             class _C:
                 data = payload["file"]
 
